@@ -229,8 +229,11 @@ func cmdDfaCases(args []string) int {
 				nobs++
 				distinct.add(fmt.Sprintf("%s\x00%d\x00%d\x00%s", pat, op, at, h))
 				st.hist("op:" + dfaOpNames[op])
-				// Go-side oracle for the unanchored entry points
-				if op != 3 {
+				// Go-side oracle for the unanchored entry points.  SearchFirstAt (op 2) is the
+				// earliest-match mode: it computes the EARLIEST end, not the leftmost-first end
+				// the backtracker returns; it is judged by the model (M) and, against the
+				// reference's earliest end, by the c14 sub-command.
+				if op != 3 && op != 2 {
 					_, be, bok := bt.SearchAtWithState(h, at, nfa.NewBacktrackerState())
 					want := -1
 					if bok {
